@@ -174,10 +174,17 @@ def run_native(prop, tier, seed, only=None, extra=None, mod=None):
     env = dict(os.environ)
     env['PYTHONPATH'] = os.environ.get('PYVC_REPO', '/repo') + os.pathsep + VERIF
     env['PYTHONDONTWRITEBYTECODE'] = '1'
+    # the code under test leaves temporary files behind (dump staging files, key-value stores): every harness process gets a
+    # scratch TMPDIR of its own, removed when it ends
+    import tempfile, shutil
+    tmpd = tempfile.mkdtemp(prefix='pyvc_native_')
+    env['TMPDIR'] = tmpd
     try:
         p = subprocess.run(cmd, capture_output=True, text=True, env=env, timeout=3000, cwd=VERIF)
     except subprocess.TimeoutExpired:
         return dict(crashed='native harness timeout', cases=0, failures=[], tests=[])
+    finally:
+        shutil.rmtree(tmpd, ignore_errors=True)
     out = p.stdout.strip().splitlines()
     for line in reversed(out):
         if line.startswith('{'):
